@@ -317,9 +317,20 @@ func (c *Ctx) ExportRules(prop string, s *Slashing) {
 		c.R.Anchor(rule, "actions", "could not determine the action values used by the record keys")
 		return
 	}
+	// scope: the export function and the package helpers it calls (a per-record helper may hold the arms)
+	scope := []*ssa.Function{F}
+	for _, g := range c.StaticReach(F, 2) {
+		if g != F && g.Blocks != nil && prog.PkgPathOf(g) == prog.PkgPathOf(F) && g != s.StoreFetchAll && g != s.StoreFetch && g.Signature.Recv() == nil || (g != F && g.Blocks != nil && g.Signature.Recv() != nil && namedOf(g.Signature.Recv().Type()) == namedOf(F.Signature.Recv().Type()) && g != F) {
+			scope = append(scope, g)
+		}
+	}
+	var scopeBlocks []*ssa.BasicBlock
+	for _, g := range scope {
+		scopeBlocks = append(scopeBlocks, g.Blocks...)
+	}
 	// arms: edges with atom key[48] == G[0]
 	armOf := map[*ssa.Global]*ssa.BasicBlock{}
-	for _, b := range F.Blocks {
+	for _, b := range scopeBlocks {
 		for i := range b.Succs {
 			a := an.EdgeAtom(b, i)
 			if a == nil || a.Op != "==" {
@@ -361,7 +372,7 @@ func (c *Ctx) ExportRules(prop string, s *Slashing) {
 	}
 	got := map[string]string{}
 	inits := map[string]int64{}
-	for _, b := range F.Blocks {
+	for _, b := range scopeBlocks {
 		for _, ins := range b.Instrs {
 			st, ok := ins.(*ssa.Store)
 			if !ok {
@@ -411,12 +422,53 @@ func (c *Ctx) ExportRules(prop string, s *Slashing) {
 			loop = l
 		}
 		okDefault := false
-		if loop != nil {
-			hdr := loop.Header
-			arms := map[*ssa.BasicBlock]bool{}
-			for _, b := range armOf {
-				arms[b] = true
+		arms := map[*ssa.BasicBlock]bool{}
+		var H *ssa.Function
+		oneH := true
+		for _, b := range armOf {
+			arms[b] = true
+			if H != nil && H != b.Parent() {
+				oneH = false
 			}
+			H = b.Parent()
+		}
+		if loop != nil && oneH && H != F {
+			// the arms live in a per-record helper: it returns a nil error only through an arm, and every iteration of the
+			// record loop passes the nil-error edge of a call of that helper (or leaves the loop)
+			k := errResultIndex(H)
+			okH := k >= 0
+			for _, ret := range an.Returns(H) {
+				if !okH {
+					break
+				}
+				// a return that yields a freshly created error is a failure; every other return may be a success and must
+				// lie below an arm
+				if call, ok := an.Result(ret, k).(*ssa.Call); ok {
+					if f := call.Call.StaticCallee(); f != nil {
+						switch f.String() {
+						case "fmt.Errorf", "errors.New", "github.com/pkg/errors.New", "github.com/pkg/errors.Errorf":
+							continue
+						}
+					}
+				}
+				target := ssa.Instruction(ret)
+				if x, _ := an.Cut(an.CutQuery{From: an.Entry(H), Target: func(i ssa.Instruction) bool { return i == target },
+					AcceptEdge: func(b *ssa.BasicBlock, i int, a *an.Atom) bool { return arms[b.Succs[i]] }}); x != nil {
+					okH = false
+				}
+			}
+			errs := map[ssa.Value]bool{}
+			for _, ci := range Calls(F, func(ci ssa.CallInstruction) bool { return ci.Common().StaticCallee() == H }) {
+				for _, e := range errValuesOfCall(ci) {
+					errs[e] = true
+				}
+			}
+			hdr := loop.Header
+			x, _ := an.Cut(an.CutQuery{From: an.Point{Block: loop.Body, Idx: 0}, Target: func(i ssa.Instruction) bool { return i == hdr.Instrs[0] },
+				AcceptEdge: func(b *ssa.BasicBlock, i int, a *an.Atom) bool { return errNilAtom(a, errs) }})
+			okDefault = okH && x == nil && len(errs) > 0
+		} else if loop != nil && oneH {
+			hdr := loop.Header
 			x, _ := an.Cut(an.CutQuery{From: an.Point{Block: loop.Body, Idx: 0}, Target: func(i ssa.Instruction) bool { return i == hdr.Instrs[0] },
 				AcceptEdge: func(b *ssa.BasicBlock, i int, a *an.Atom) bool { return arms[b.Succs[i]] }})
 			okDefault = x == nil
